@@ -113,8 +113,8 @@ MUTANTS = [
      "            if previously_optimized and sub_block_idx > 1:\n                optimized_instructions.append(previous_instructions[instr_idx-1])"),
     ("C16", "sfs_generator/gasol_optimization.py", 'json_dict["init_progr_len"] = min(max_instr_size, max_instr_size-discount_op+len(not_used))',
      'json_dict["init_progr_len"] = min(max_instr_size, max_instr_size-discount_op+len(not_used))-1'),
-    ("C17", "solution_generation/ids2asm.py", 'if associated_instr["disasm"] == "PUSH0":\n            return AsmBytecode(-1, -1, -1, "PUSH", "0")',
-     'if associated_instr["disasm"] == "PUSH0":\n            return AsmBytecode(-1, -1, -1, "PUSH0", None)'),
+    ("C17", "sfs_generator/asm_bytecode.py", 'return constants.push0_enabled and disasm == "PUSH" and value == "0"',
+     'return disasm == "PUSH" and value == "0"'),
 ]
 
 
